@@ -186,7 +186,14 @@ def gen_sqlalchemy(r):
     form = r.choice(["class", "class", "table"])
     documented = r.sample(names, r.randint(0, len(names)))
     if form == "class":
-        doc = "\n".join(["    A model.", ""] + ["    :cvar %s: documented %s" % (n, n) for n in documented])
+        def entry(n):
+            k = r.random()
+            if k < 0.7:
+                return ["    :cvar %s: documented %s" % (n, n)]
+            if k < 0.85:
+                return ["    :cvar %s:" % n]  # listed without a description
+            return ["    :type %s: ```int```" % n]  # listed with a type only
+        doc = "\n".join(["    A model.", ""] + [l for n in documented for l in entry(n)])
         body = "\n".join("    %s = Column(%s)" % (n, ", ".join(pos + kws)) for n, pos, kws in cols)
         src = 'class Foo(Base):\n    """\n%s\n    """\n    __tablename__ = "foo"\n%s\n' % (doc, body)
     else:
@@ -224,8 +231,16 @@ def gen_class(r):
     doc = "\n".join(["    A thing.", ""] + ["    :cvar %s: documented %s" % (n, n) for n in documented])
     base = r.choice(["object", "", "BaseModel"])
     extra = r.choice(["", "", "\n    def __call__(self):\n        return self.a\n", "\n    class Meta:\n        x = 1\n"])
+    merge = None
+    if base != "BaseModel" and r.random() < 0.3:
+        # an __init__ whose arguments repeat some attributes (documented in neither place or in one): parsed with merge_inner_function="__init__"
+        args = r.sample(names, r.randint(1, len(names))) + r.sample(["seed", "verbose"], r.randint(0, 2))
+        idoc = r.choice(["", '        """\n        Build it.\n\n%s\n        """\n' % "\n".join("        :param %s: the %s" % (a, a) for a in r.sample(args, r.randint(0, len(args))))])
+        extra += "\n    def __init__(self, %s):\n%s        self.x = 1\n" % (", ".join("%s=None" % a if r.random() < 0.5 else a for a in sorted(args, key=lambda a: r.random())) , idoc)
+        extra = extra.replace("=None, ", "=None, ")
+        merge = "__init__"
     src = 'class Foo%s:\n    """\n%s\n    """\n%s\n%s' % ("(%s)" % base if base else "", doc, "\n".join(lines), extra)
-    return {"src": src, "form": "pydantic" if base == "BaseModel" else "class", "shapes": sorted(set(shapes.values())), "attrs": [[n, shapes[n]] for n in names]}
+    return {"src": src, "form": "pydantic" if base == "BaseModel" else "class", "shapes": sorted(set(shapes.values())), "attrs": [[n, shapes[n]] for n in names], "merge": merge}
 
 
 def impl_class(payload):
@@ -235,6 +250,8 @@ def impl_class(payload):
     try:
         node = ast.parse(payload["src"]).body[0]
         f = cdd.pydantic.parse.pydantic if payload["form"] == "pydantic" else cdd.class_.parse.class_
+        if payload.get("merge"):
+            return {"ir": strip_ir(f(node, merge_inner_function=payload["merge"]))}
         return {"ir": strip_ir(f(node))}
     except Exception as e:  # noqa
         return {"raises": core.exc_name(e)}
@@ -475,7 +492,7 @@ def run(chk: core.Check) -> int:
             if clause == "extra-keys":
                 # unrecognised Column keywords / schema keywords are copied into the entry verbatim (one root cause); keywords the
                 # parsers are meant to CONSUME (primary_key, foreign_key, nullable, required, type, anyOf, ...) are kept apart
-                passthrough = {"index", "unique", "autoincrement", "server_default", "onupdate", "format", "items", "pattern", "enum", "minimum", "maximum"}
+                passthrough = {"index", "unique", "autoincrement", "server_default", "onupdate", "format", "items", "enum", "minimum", "maximum"}  # `pattern` is CONSUMED (-> Literal[...]) on the unchanged tree
                 ks = set(detail.split(","))
                 detail = "passthrough-keyword" if ks <= passthrough else ",".join(sorted(ks - passthrough))
             chk.failure({"parser": key, "clause": clause, "detail": detail.split(":")[-1] if clause == "typ-unparsable" else (detail if clause == "extra-keys" else None)},
@@ -494,7 +511,7 @@ def run(chk: core.Check) -> int:
         for clause, detail in wf_problems(unstrip(r["ir"])):
             ent = detail.split(":")[0] if ":" in detail else detail
             chk.failure({"parser": key, "clause": clause, "detail": detail.split(":")[-1] if clause == "typ-unparsable" else (detail if clause == "extra-keys" else None),
-                         "attr_shape": by_name.get(ent.replace("param ", "").strip(), by_name.get(ent))},
+                         "attr_shape": by_name.get(ent.replace("param ", "").strip(), by_name.get(ent)), **({"merged_init": True} if payload.get("merge") else {})},
                         "%s parser: %s %s" % (key, clause, detail), {"fn": "class", "payload": payload})
     # (4d) hand-written argparse functions: choices as list / tuple / set display, append, store_true, nargs, loads, defaults in the help text
     aps = [gen_argparse(rng) for _ in range(n)]
